@@ -338,7 +338,8 @@ pub fn write_source_tree(dir: &Path, rich: u32, data: &[(&str, Vec<u8>)], images
     }
 }
 
-/// arrange the target path: 0 absent, 1 empty dir, 2 another larger UFO, 3 nested junk, 4 plain file
+/// arrange the target path: 0 absent, 1 empty dir, 2 another larger UFO, 3 nested junk, 4 plain file,
+/// 6 a symbolic link to a populated directory elsewhere in the sandbox
 pub fn prepare_target(target: &Path, state: u32) {
     rm_rf(target);
     std::fs::create_dir_all(target.parent().unwrap()).unwrap();
@@ -362,6 +363,15 @@ pub fn prepare_target(target: &Path, state: u32) {
             std::fs::write(target.join("glyphs.background/stale.glif"), b"stale").unwrap();
             std::fs::create_dir_all(target.join("images")).unwrap();
             std::fs::create_dir_all(target.join("data/x")).unwrap();
+        }
+        6 => {
+            let real = target.parent().unwrap().parent().unwrap().join("real.d");
+            rm_rf(&real);
+            std::fs::create_dir_all(real.join("keep/deep")).unwrap();
+            std::fs::write(real.join("precious.txt"), b"behind the link").unwrap();
+            std::fs::write(real.join("keep/deep/x.bin"), [7u8; 9]).unwrap();
+            std::fs::write(real.join("metainfo.plist"), b"old").unwrap();
+            std::os::unix::fs::symlink("../real.d", target).unwrap();
         }
         _ => std::fs::write(target, b"i am a plain file").unwrap(),
     }
